@@ -10,7 +10,7 @@ split/merged at arbitrary places, strings long enough for the struct->fromfile c
 several field widths in ASCII - and the real readers must return exactly the encoded content in every read mode; directory listings
 must agree with the byte offsets the encoder recorded and with full reads; reading a named subset must equal filtering a full read.
 """
-import ast, hashlib, io, json, os, shutil, struct, sys, tempfile, time, traceback, warnings
+import struct, ast, hashlib, io, json, os, shutil, struct, sys, tempfile, time, traceback, warnings
 import numpy as np
 import z3
 from vc import report, nasenc
@@ -138,14 +138,18 @@ def op4_bounded(seed, quick):
                                 return ev, dict(what="op4 reader does not decode an independently encoded file", endian=endian, bit64=bit64, layout=layout, mtype=mtype, strings=mode,
                                                 read_mode=str(rm), problems=prob[:4])
         # ASCII: E and D exponents, several widths / values per line
-        for width, digits, per, x in ((23, 16, 3, "E"), (23, 16, 3, "D"), (16, 9, 5, "E"), (26, 17, 3, "D"), (24, 16, 3, "E")):
+        for width, digits, per, x, pfx in ((23, 16, 3, "E", True), (23, 16, 3, "D", True), (16, 9, 5, "E", True), (26, 17, 3, "D", True), (24, 16, 3, "E", False),
+                                           (30, 22, 1, "E", True), (8, 1, 10, "E", True), (10, 3, 16, "E", False), (26, 17, 1, "D", False), (12, 5, 12, "E", True)):
             for layout in ("dense", "bigmat", "nonbigmat"):
                 for mtype in (2, 4, 1):
                     for mode in ("runs", "split") if layout != "dense" else ("single",):
-                        enc = nasenc.Op4Ascii(width, digits, per, x)
+                        enc = nasenc.Op4Ascii(width, digits, per, x, prefix=pfx)
                         mats = []
                         for k in range(2):
                             M = _cast(_mat(rng, rng.randint(1, 9), rng.randint(1, 5), mtype > 2, 0.6), mtype)
+                            if digits < 9:          # few digits: make the values exactly representable in the announced format so the expected result is exact
+                                rnd_ = np.vectorize(lambda v_: float("%.*E" % (digits, v_)))
+                                M = (rnd_(M.real) + 1j * rnd_(M.imag)) if np.iscomplexobj(M) else rnd_(M)
                             enc.matrix("A%d" % k, [list(M[:, c]) for c in range(M.shape[1])], mtype, 2, layout, lambda col, m=mode: nasenc.split_strings(col, rng, m))
                             mats.append(("a%d" % k, M))
                         fn = os.path.join(tmp, "x.op4")
@@ -164,7 +168,7 @@ def op4_bounded(seed, quick):
                             prob = []
                             for (nm, M), G in zip(mats, got):
                                 A = G.toarray() if sps.issparse(G) else np.asarray(G)
-                                if A.shape != M.shape or not np.allclose(A, M, rtol=10.0 ** (1 - digits) * 5, atol=0):
+                                if A.shape != M.shape or not np.allclose(A, M, rtol=(10.0 ** (1 - digits) * 5 if digits >= 9 else 1e-12), atol=0):
                                     prob.append("matrix %s decoded wrong" % nm)
                             if list(names) != [m[0] for m in mats] or list(listing[0]) != list(names) or [tuple(s) for s in listing[1]] != [m[1].shape for m in mats]:
                                 prob.append("names / dir listing")
@@ -362,6 +366,30 @@ def op2_bounded(seed, quick):
                                         if list(map(int, g)) != rec:
                                             prob.append("table %s record decoded wrong" % nm)
                                             break
+                                    # every record form, and plans that mix reading (in different forms) with skipping: the records after a multi-part one must come back
+                                    # unchanged and the end of the table must be recognised (None) exactly after the last record
+                                    fmt_i = {4: "i", 8: "q"}[ib]
+                                    for plan in ("bytes", "uint", "int", "mixed1", "mixed2"):
+                                        o2.set_position(nm)
+                                        o2.rdop2nt()
+                                        for kk, rec in enumerate(val):
+                                            how = plan if not plan.startswith("mixed") else ("bytes", "skip", "int", "uint")[(kk + (plan == "mixed2")) % 4]
+                                            if how == "skip":
+                                                o2.skipop2record()
+                                                continue
+                                            g = o2.rdop2record(how)
+                                            if how == "bytes":
+                                                okr = isinstance(g, bytes) and g == struct.pack(endian + "%d%s" % (len(rec), fmt_i), *rec)
+                                            elif how == "uint":
+                                                okr = g is not None and [int(x) for x in g] == [x % (1 << (8 * ib)) for x in rec]
+                                            else:
+                                                okr = g is not None and [int(x) for x in g] == rec
+                                            if not okr:
+                                                prob.append("table %s record %d read as %r (plan %s) decoded wrong" % (nm, kk, how, plan))
+                                                break
+                                        else:
+                                            if o2.rdop2record("bytes" if plan == "bytes" else None) is not None:
+                                                prob.append("table %s: the end of the table is not recognised after its last record (plan %s)" % (nm, plan))
                                     o2.set_position(nm)
                                     o2.rdop2nt()
                                     for rec in val:
